@@ -61,10 +61,11 @@ var c16Seeds = map[string][]string{
 	"html": {`<!DOCTYPE html><html><head><title>T</title><!-- c --><script type="text/javascript">var a = 1;</script></head><body><p class="x">Hello <b>w</b>  <i>z</i> </p><ul><li>a</li><li>b</li></ul><form method="get"><input type="text" value=""></form><!--[if IE]> x <![endif]--><table><tr><td>1</td></tr></table></body></html>`,
 		`<div> <span> a </span> <span>b</span> </div> <p>x</p>`},
 	"css":  {`a{margin:10.0px 1000000px;color:transparent;background-color:transparent;width:1e3px;height:0.00001em;opacity:.50;top:100000%}`},
-	"js":   {"function f(alpha,beta){try{g()}catch(e){h()}var s='a\\nb\\nc';return alpha==null?beta:alpha}var k=Math.pow(f(1,2),2);", "let q=a?.b??c;let r=x**2;let t=`x${q}`;try{}catch{}"},
+	"js":   {"function f(alpha,beta){try{g()}catch(e){h()}var s='a\\nb\\nc';return alpha==null?beta:alpha}var k=Math.pow(f(1,2),2);", "let q=a?.b??c;let r=x**2;let t=`x${q}`;try{}catch{}",
+		"x=a==null?undefined:a.b;y=b==null?void 0:b.c();z=c==null?undefined:c[0];w=d===null||d===undefined?undefined:d.e"},
 	"json": {`{"a":[1.0e2,0.50,-0.0,1E+2,100000],"b":{"c":1.10}}`},
 	"svg":  {`<svg xmlns="http://www.w3.org/2000/svg"><!-- c1 --><g><!-- c2 --><path d="M 10 10 L 20.50 20"/></g></svg>`},
-	"xml":  {`<a> <b> x </b> <c>y</c> z </a>`, `<r><e> </e> t <f/> </r>`},
+	"xml":  {`<a> <b> x </b> <c>y</c> z </a>`, `<r><e> </e> t <f/> </r>`, `<p>line one <br/> line two</p>`, `<p>a <i>b</i> <![CDATA[c]]> d <!-- e --> f <g/> h</p>`},
 }
 
 func c16Lib(kind string, o any, doc []byte) ([]byte, error) {
@@ -383,6 +384,12 @@ func init() {
 						fail("KeepNumbers: number lexemes changed", "")
 					}
 				}
+			case "xml":
+				if has("KeepWhitespace") {
+					if d := c16XMLSpaces(doc, out); d != "" {
+						fail("xml KeepWhitespace: a space next to a tag was removed entirely", d)
+					}
+				}
 			case "svg":
 				if has("KeepComments") && bytes.Count(doc, []byte("<!--")) != bytes.Count(out, []byte("<!--")) {
 					fail("svg KeepComments: comments removed", "")
@@ -461,4 +468,35 @@ func init() {
 		st.End()
 		return nil
 	})
+}
+
+var c16TagRe = regexp.MustCompile(`<!--[\s\S]*?-->|<!\[CDATA\[[\s\S]*?\]\]>|<[^>]*>`)
+
+// c16XMLSpaces compares the text segments between tags of input and output (only when both have the same number of
+// segments and no comments/CDATA are involved): a segment that starts (ends) with white space next to a tag and has other
+// content must still start (end) with white space.
+func c16XMLSpaces(in, out []byte) string {
+	if bytes.Contains(in, []byte("<!--")) || bytes.Contains(in, []byte("<![CDATA[")) || bytes.Contains(in, []byte("<?")) || bytes.Contains(in, []byte("<!")) {
+		return ""
+	}
+	a := c16TagRe.Split(string(in), -1)
+	b := c16TagRe.Split(string(out), -1)
+	ta := c16TagRe.FindAllString(string(in), -1)
+	if len(a) != len(b) || len(ta) == 0 {
+		return ""
+	}
+	isWS := func(c byte) bool { return c == ' ' || c == '\t' || c == '\n' || c == '\r' }
+	for i := range a {
+		x, y := a[i], b[i]
+		if strings.TrimSpace(x) == "" {
+			continue
+		}
+		if i > 0 && isWS(x[0]) && (len(y) == 0 || !isWS(y[0])) {
+			return fmt.Sprintf("text %q became %q (leading space after %s lost)", x, y, ta[i-1])
+		}
+		if i < len(ta) && isWS(x[len(x)-1]) && (len(y) == 0 || !isWS(y[len(y)-1])) {
+			return fmt.Sprintf("text %q became %q (trailing space before %s lost)", x, y, ta[i])
+		}
+	}
+	return ""
 }
